@@ -29,6 +29,7 @@ func checkC18(c *Ctx) {
 
 	c.Rule("C18/R8", "collected keys are sorted by a total order on the keys themselves: every slice of map keys gathered in a map range is sorted by a standard value sort, or by a comparator whose every comparison is between the elements' own components or their String/StringValues renderings (nothing lossy such as a normalised date, nothing stateful such as a projection's observation order) and which, for struct keys, compares every field")
 	c.Rule("C18/R9", "a summary is a function of its point's samples: every table in benchseries that remembers computed results is keyed by every input of the remembered computation, verbatim (a product of hashes is not the pair of samples)")
+	c.Rule("C18/R10", "a point's place on the series axis is that of its own numerator hash: in the loop over a trial's numerator hashes the series stamp that is normalised is looked up under that hash (not taken once per trial or per builder)")
 	c.Rule("C18/R7", "no 0/0 in the bootstrap: every division by a resampled median in benchseries is reached only after that median was tested non-zero (dividing first and repairing infinities leaves NaN for 0/0, which then sorts anywhere and breaks low <= centre <= high)")
 	p := mustLoad(c, loadOpts{}, "./benchseries", "./cmd/benchseries", "./benchproc", "./benchfmt", "./benchmath", "./benchunit", "./benchproc/internal/parse")
 	fns := p.Funcs("benchseries", "cmd/benchseries", "benchproc", "benchfmt", "benchmath", "benchunit", "benchproc/internal/parse")
@@ -56,6 +57,7 @@ func checkC18(c *Ctx) {
 	}
 	c.Floor("C18/R1", "map ranges in scope", n, 8)
 	c18TotalOrder(c, p, fns, inScope)
+	c18SeriesPerHash(c, p)
 	// R9: summaries are functions of the point's own samples: any table that remembers results in benchseries is keyed by
 	// every input of what it remembers (the rule of C13/R4; its matcher is exercised there on the median cache)
 	nm := checkMemoSites(c, p, "C18/R9", findMemoSites(p.Funcs("benchseries")), nil)
@@ -1003,4 +1005,93 @@ func c18ComparatorTotal(cmp *ssa.Function, keyT types.Type) (bool, string) {
 		}
 	}
 	return true, ""
+}
+
+// c18SeriesPerHash (C18/R10).
+func c18SeriesPerHash(c *Ctx, p *Prog) {
+	const R = "C18/R10"
+	fn := p.Method("benchseries", "Builder", "AllComparisonSeries")
+	if fn == nil {
+		c.Undecided(R, "anchor:Builder.AllComparisonSeries", "", "not found")
+		return
+	}
+	n := 0
+	eachInstr(fn, func(b *ssa.BasicBlock, in ssa.Instruction) {
+		call, ok := in.(*ssa.Call)
+		if !ok || !objIs(calleeObj(&call.Call), bseriesPkg, "", "NormalizeDateString") {
+			return
+		}
+		// only the one inside a loop over numerator hashes: a loop in which a map keyed by benchproc.Key is read with the
+		// loop's own element
+		var lp *loopInfo
+		for _, l := range naturalLoops(fn) {
+			if l.Blocks[b] && (lp == nil || len(l.Blocks) < len(lp.Blocks)) {
+				lp = l
+			}
+		}
+		if lp == nil {
+			return
+		}
+		// the loop's element: a value loaded from the slice the loop indexes
+		elems := map[ssa.Value]bool{}
+		for bb := range lp.Blocks {
+			for _, i2 := range bb.Instrs {
+				if ld, ok := i2.(*ssa.UnOp); ok && ld.Op == token.MUL {
+					if ia, ok := ld.X.(*ssa.IndexAddr); ok && recvName(ld.Type()) == "Key" {
+						if _, isPhi := ia.Index.(*ssa.Phi); isPhi || true {
+							elems[ld] = true
+						}
+					}
+				}
+			}
+		}
+		// is this loop over the tests of a trial? it must look up the tests map with the element
+		overTests := false
+		for bb := range lp.Blocks {
+			for _, i2 := range bb.Instrs {
+				if lk, ok := i2.(*ssa.Lookup); ok && elems[lk.Index] {
+					if f, _ := loadOfField(lk.X); f != nil && f.Name() == "tests" && (bb == b || bb.Dominates(b)) {
+						overTests = true
+					}
+				}
+			}
+		}
+		if !overTests {
+			return
+		}
+		n++
+		// the stamp: NormalizeDateString(S.StringValues()) with S looked up under the element
+		perHash := false
+		var walk func(v ssa.Value, d int)
+		walk = func(v ssa.Value, d int) {
+			if d > 6 || v == nil {
+				return
+			}
+			switch x := v.(type) {
+			case *ssa.Call:
+				for _, a := range x.Call.Args {
+					walk(a, d+1)
+				}
+			case *ssa.Lookup:
+				if elems[x.Index] {
+					perHash = true
+				}
+			case *ssa.Extract:
+				walk(x.Tuple, d+1)
+			case *ssa.UnOp:
+				if al, ok := x.X.(*ssa.Alloc); ok {
+					for _, st := range storesInto(al) {
+						walk(st.Val, d+1)
+					}
+				}
+			case *ssa.Phi:
+				for _, e := range x.Edges {
+					walk(e, d+1)
+				}
+			}
+		}
+		walk(call.Call.Args[0], 0)
+		c.Check(perHash, R, fmt.Sprintf("AllComparisonSeries:series-of-hash#%d", n), p.pos(call.Pos()), "the series stamp is looked up under the numerator hash being placed", "inside the loop over a trial's numerator hashes the series stamp does not depend on the hash: when one experiment measured several numerator hashes with different stamps they are all placed at one series point, points and hash pairs go missing and one hash's samples displace another's — which one survives depends on the order results were added")
+	})
+	c.Floor(R, "series stamps normalised per numerator hash", n, 1)
 }
